@@ -94,6 +94,9 @@ def ops():
         op(f"add_variable({nm})")(lambda m, ctx, i, nm=nm: m.add_variable(nm, V(ctx, i, "v")))
     for nm in ("z", "y", "nope", "k1"):
         op(f"remove_variable({nm})")(lambda m, ctx, i, nm=nm: m.remove_variable(nm))
+    op("remove_variable(x, keep stoichiometries)")(lambda m, ctx, i: m.remove_variable("x", remove_stoichiometries=False))
+    op("remove_variable(x)")(lambda m, ctx, i: m.remove_variable("x"))
+    op("remove_variable(n)")(lambda m, ctx, i: m.remove_variable("n"))  # a parameter named by a stoichiometry
     for nm in ("x", "nope"):
         op(f"update_variable({nm})")(lambda m, ctx, i, nm=nm: m.update_variable(nm, V(ctx, i, "v")))
     op("make_variable_static(z)")(lambda m, ctx, i: m.make_variable_static("z"))
